@@ -157,3 +157,15 @@ TABLE['C20'] = {
     'level_text': 'Deductive proof, for all strings without line breaks (any runs of backslashes and quotes), that the MS C runtime rules read windows.quote_info(s) back as exactly the one argument s, and that UuidMap.__getitem__ marks the key seen, returns an existing GUID unchanged and leaves every other key alone. join/split inverse and GUID stability over run sequences are checked bounded on the real code.',
     'level_note': 'Trusted: PyVC, z3, specs/crt.py (not tool-validated), regex family models (cross-checked). Bounded only: tokenizer/split/join, multi-run GUID persistence.',
 }
+
+TABLE['C12'] = {
+    'modules': ['contracts.paths'],
+    'level': 'other',
+    'explanation': 'proof of the three kernels whose logic is bfg9000\'s own (equality/hash agreement, hash input, JSON shape incl. the directory flag) + bounded runtime contracts of every algebraic law of the property on the real PosixPath/WindowsPath classes (all strings of up to 4 components over {"", ".", "..", "a", "b.c", "a b", "..x"}, both separators); the laws themselves are laws of posixpath/ntpath/os.path, for which no deductive model exists here (a model would restate the library), so they are NOT proved',
+    'assumptions': ['posixpath/ntpath/os.path behave as in the running CPython (the bounded run uses the real library)',
+                    'names beginning with ~ are excluded (os.path.expanduser is applied to every appended string: known divergence, see DESIGN.md)'],
+    'trusted_base': ['PyVC (pyvc/*.py)', 'z3 5.1.0', 'the reference normaliser oracle_norm in contracts/paths.py'],
+    'not_covered': ['absolute and drive-prefixed forms beyond the bounded alphabet', 'reroot/addext/stripext/splitleaf laws (stripext: see C05)', 'leading ~ components'],
+    'level_text': 'Partial: deductive proof of __eq__/__hash__ agreement and of the to_json shape; all algebraic laws (normal form, containment, separator agnosticism, parent/append, relpath/append, JSON inverse, string = join, commonprefix/uniquetrees) are checked as runtime contracts on the real classes up to a stated bound, for both platform flavours. Not a proof of the laws.',
+    'level_note': 'Bounded stand-in for the library-dependent laws (labelled bounded, not counted as proved); proof only for three small kernels.',
+}
